@@ -16,6 +16,7 @@ func (r *Reader) ReadMetadata() (err error) {
 	switch b.boxType {
 	case typeMdat:
 		err = r.readMdat(&b)
+		b.close() // (as for meta and moov: whatever its content, the box ends where it says)
 	case typeMeta:
 		err = r.readMeta(&b)
 		b.close()
@@ -24,6 +25,7 @@ func (r *Reader) ReadMetadata() (err error) {
 		b.close()
 	case typeUUID:
 		err = r.readUUIDBox(&b)
+		b.close()
 	default:
 		if logLevelInfo() {
 			logInfo().Object("box", b).Send()
